@@ -194,6 +194,7 @@ def run(ctx):
     check_n_data(ctx)
     for letter in ('A', 'N', 'C', 'D', 'E', 'F'):
         I = Interp(repo, KeepHooks(False))
+        I.exact_le = False          # the quantifier's thresholds avoid exact equality with an attained value: <= and < are one
         I.track_xr = True
         info = make_info(repo, per_fit, shapes)
         out = I.call(keep, [(letter, scalar(sym('number'), num(1)))], selfv=info)
@@ -247,6 +248,7 @@ def run(ctx):
                                '%s cut with a different count %s' % (k, alg.show(cuts[k], 120)), 'different-count')
     # model_fluxes absent
     I = Interp(repo, KeepHooks(False))
+    I.exact_le = False          # the quantifier's thresholds avoid exact equality with an attained value: <= and < are one
     info = make_info(repo, per_fit, shapes)
     info.attrs['model_fluxes'] = None
     I.call(keep, [('C', scalar(sym('number'), num(1)))], selfv=info)
@@ -259,6 +261,7 @@ def run(ctx):
                    'absent predicted fluxes stay absent; other arrays still cut', 'keep() misbehaves when predicted fluxes are absent: %r' % (mf_,), 'none-guard')
     # unknown letter raises
     I = Interp(repo, KeepHooks(False))
+    I.exact_le = False          # the quantifier's thresholds avoid exact equality with an attained value: <= and < are one
     info = make_info(repo, per_fit, shapes)
     out = I.call(keep, [('Z', scalar(sym('number'), num(1)))], selfv=info)
     if not (isinstance(out, Unk) and 'raises' in out.why) and (I.lost or getattr(I, '_unknown_conds', 0) or isinstance(out, Unk)):
@@ -267,6 +270,7 @@ def run(ctx):
         ctx.expect(isinstance(out, Unk) and 'raises' in out.why, 'ALG-11', 'unknown selector letter', where, 'raises', 'an unknown selector letter is accepted silently', 'unknown-letter')
     # empty result keeps nothing
     I = Interp(repo, KeepHooks(True))
+    I.exact_le = False          # the quantifier's thresholds avoid exact equality with an attained value: <= and < are one
     info = make_info(repo, per_fit, shapes)
     I.call(keep, [('D', scalar(sym('number'), num(1)))], selfv=info)
     n0 = cut_of(info.attrs.get('chi2'), 'chi2', shapes)
